@@ -154,11 +154,33 @@ def c15(ctx, spec):
     if ctx.tier == 'thorough':
         for d in (2, 3): ctx.run_sharded('c15vg_d%d' % d, 1200, args=['--maxext', 4], shards=8, timeout=3000)
 
+# ---------------------------------------------------------------------------------------------- C14
+def c14(ctx, spec):
+    env = {'OPENBLAS_NUM_THREADS': '1'}
+    builds = [dict(name='c14_r%d' % r, src='harness/c14_lapack.cpp', cfg='asan_noleak', defs=['C14_R=%d' % r], libs=['-lopenblas'], env=env) for r in (1, 2, 3)]
+    builds += [dict(name='c14_syev_probe', src='harness/c14_syev_probe.cpp', cfg='dbg', libs=['-lopenblas'], may_fail=True)]
+    if ctx.tier == 'thorough': builds += [dict(name='c14vg_r%d' % r, src='harness/c14_lapack.cpp', cfg='vg', defs=['C14_R=%d' % r], libs=['-lopenblas']) for r in (1, 2, 3)]
+    ctx.build(builds)
+    n = T(ctx, 4000, 150000)
+    for r in (1, 2, 3): ctx.run_sharded('c14_r%d' % r, n, args=['--maxn', T(ctx, 6, 9)], shards=4)
+    if ctx.tier == 'thorough':
+        for r in (1, 2, 3): ctx.run_sharded('c14vg_r%d' % r, 1500, args=['--maxn', 5], shards=8, timeout=3000)
+    if not ctx.built['c14_syev_probe']['ok']:
+        ctx.add_violation('C14:syev:header-does-not-compile', 'boost/multi/adaptors/lapack/syev.hpp does not compile: ' + ' | '.join(l for l in ctx.built['c14_syev_probe']['log'].splitlines() if 'error' in l)[:400], desc='compile probe harness/c14_syev_probe.cpp')
+    else:
+        ctx.notes.append('lapack/syev.hpp compiles on this tree, but no syev workload exists yet: the syev part of C14 is NOT exercised')
+    ctx.extra['outcomes'] = {k: v for k, v in ctx.counters.items() if k.startswith('computed') or k.startswith('rejected')}
+
 HIST_RULE = ('histories (3..12 steps quick, ..40 thorough) over a pool of 4 owning arrays of one (element type, rank, allocator traits): 26 operation kinds (sizing/fill/allocator-extended/copy/move/view/init-list/iterator constructors, copy/move/self assignment over '
              'every prior state, assignment from views/other element type/init lists/ranges, swap, decay, 3 reextent overloads, clear, ={}, reshape, assign(first,last), element writes, destroy); unique ids as values; extents 0..3. '
              'After EVERY step: each live array vs. its model value, storage ranges pairwise disjoint, live-object registry == sum of num_elements, outstanding blocks == non-empty arrays with matching sizes, block owner == get_allocator(), get_allocator() == what the traits prescribe. ')
 
 REGISTRY = {
+    'C14': dict(fn=c14, level='exploration',
+                rule='potrf: n 1..6 (thorough ..9) x {row-major, column-major} x {contiguous, padded} x both triangles x {SPD M*M^T+nI, indefinite with a known first non-positive leading minor}: returned block order, factor*factor^T vs the selected triangle (50*n*eps*|A|), other triangle and everything outside the view untouched. '
+                     'geqrf: m,n 1..6 rectangular, 4 layouts: Q*R rebuilt from the reflectors and tau in LAPACK\'s own column-major reading of the view vs. the input, outside untouched. gesvd: m,n 1..6, A/U/VT layouts: U*diag(s)*VT vs the input, s non-negative and descending, outside of all three roots untouched. '
+                     'Rejections (exception / assertion) of layouts LAPACK cannot express are allowed and tabulated. syev: compile probe only. thorough adds valgrind memcheck. distinct = hash(routine, layouts, triangle, definiteness, size classes); non-trivial = n >= 2',
+                assumptions=['guard canaries + poisoned padding stand in for ASan inside LAPACK (memcheck in thorough)', 'gesvd convention: the 4th output holds V^T (A = U diag(s) VT)', 'syev.hpp does not compile at the pinned commit: reported as a finding, not exercised']),
     'C15': dict(fn=c15, level='exploration',
                 rule='random cases: D 1..4, extents 1..6 (non powers of two, size-1 dimensions forced sometimes), all 2^D masks, both signs, input and output layouts independently from {contiguous, rotated root, unrotated root, transposed root, padded block, strided-of-doubled} over guarded roots (64 canaries, poisoned padding); '
                      'modes: out-of-place dft, in-place overload, forward followed by backward. Oracle: direct O(N^2) DFT along exactly the masked dimensions (batches over the rest) with tolerance 1e-10*N*max|in|; distinct input bit-identical afterwards; every root element outside the output view untouched; forward∘backward == N_transformed * input. '
